@@ -55,6 +55,14 @@ fn interesting(l: &Lists) -> bool {
 
 fn check(t: &mut Tape, ctx: &mut Ctx) -> CheckResult {
     let (ms, ml) = if ctx.tier == Tier::Quick { (5, 3) } else { (8, 5) };
+    // medium cases: many segments, some of them long
+    let (ms, ml) = if !ctx.medium {
+        (ms, ml)
+    } else if ctx.medium_profile % 2 == 0 {
+        (ctx.medium_t + 2, ml)
+    } else {
+        (ms, ctx.medium_t + 2)
+    };
     match t.choice(8) {
         0 => constructors(t, ctx, ms, ml),
         1 => basic(t, ctx, ms, ml),
